@@ -136,9 +136,11 @@ func (p *Parser) storeOrCache(oh *ObjectHeader) error {
 			return err
 		}
 
-		defer func() { _ = w.Close() }()
-
+		// Close is where the storage keeps the object: its error counts.
 		_, err = ioutil.CopyBufferPool(w, oh.content)
+		if cerr := w.Close(); err == nil {
+			err = cerr
+		}
 		if err != nil {
 			return err
 		}
